@@ -8,7 +8,8 @@ def p_parts():
     from ._typemap import p_typemap
     from ._cats import p_cats
     from ._handles import p_handles
-    return [p_typemap, p_cats, p_handles]
+    from ._generic import optional_parts
+    return [p_typemap, p_cats, p_handles] + optional_parts(("_makemeta", "p_makemeta"))
 
 
 def run(ctx):
